@@ -14,6 +14,7 @@ from decimal import Decimal
 from lib import heap
 
 ID = 'C13'
+TECHNIQUE = 'runtime monitor: deep fingerprints of every argument at entry/exit of every non-mutator + end-to-end fingerprints of host objects'
 RULE = ('every non-mutator in the function table x typed argument templates (lists, string lists, nested lists, lists of dicts, dicts, nested dicts, tuples from items/enumerate, '
         'strings, empty containers, aliased containers, a host defaultdict, a 10050-element host list reachable through a dict) with 1- and 2-argument key functions, builtins as key '
         'functions, reverse flags, separators; called through eval in call/method/pipe spelling, directly as FUNCTIONS[name](*args), and in pipelines of 2-4 stages; plus '
